@@ -714,22 +714,45 @@ impl<C: Config, Q: Query> Snapshot<C, Q> {
                         C::BuildHasher::default(),
                     );
 
-                    lock_guard
-                        .this_computing
-                        .callee_info
-                        .callee_queries
-                        .iter_sync(|k, v| {
-                            if let Some(obs) = v {
-                                hash_map.insert(*k, *obs);
-                            }
+                    // A run that ended inside a strongly connected component
+                    // was aborted at the read that closed the cycle and its
+                    // value is the cycle default: what it observed says
+                    // nothing about the value it holds. Record no
+                    // observation at all; a query with a recorded callee
+                    // that has no observation is always re-executed when it
+                    // is repaired (see
+                    // `recompute_decision_based_on_forward_edges`), so the
+                    // members of a former cycle are re-evaluated together
+                    // instead of one of them being verified against the
+                    // stale defaults of the others.
+                    if !lock_guard.this_computing.is_in_scc() {
+                        lock_guard
+                            .this_computing
+                            .callee_info
+                            .callee_queries
+                            .iter_sync(|k, v| {
+                                if let Some(obs) = v {
+                                    hash_map.insert(*k, *obs);
+                                }
 
-                            true
-                        });
+                                true
+                            });
+                    }
 
                     hash_map
                 },
+                // A run that ended inside a strongly connected component
+                // carries the query itself in its transitive firewall
+                // callees. The queries above inherit it like a firewall, so
+                // none of them trusts a clean edge on the way down to this
+                // query before it has been verified (that is, re-executed)
+                // in the current epoch.
                 self.engine().create_tfc_from_scc_hash_set(
                     &lock_guard.this_computing.tfc,
+                    lock_guard
+                        .this_computing
+                        .is_in_scc()
+                        .then_some(lock_guard.query_id),
                 ),
             )
         };
